@@ -662,6 +662,45 @@ pub fn apply_adv<A: Adapter>(
             }
             _ => false,
         },
+        // ---- cross-proof compensation under the hypothesis that the batching randomizers are predictable:
+        // r_1 = 1 and r_2 = the next 128-bit squeeze after the opening challenges (index d).  A false value
+        // (+delta on the claim whose opening challenge is squeeze k) in the first group, the witnesses of the first two
+        // proofs shifted by e_1 g and e_2 g with  e_1 = xi delta / (z_1 - z_2),  e_2 = - r_1 e_1 / r_2.
+        // With randomizers from the verifier's own RNG the shifted proofs are simply wrong.
+        "compensate" => match st {
+            Stmt::Batch { qs, evals, proof, .. } => {
+                use ark_crypto_primitives::sponge::CryptographicSponge;
+                let mut groups: BTreeMap<&String, &A::Pt> = BTreeMap::new();
+                for (_l, (pl, pt)) in qs.iter() {
+                    groups.entry(pl).or_insert(pt);
+                }
+                let pts: Vec<&A::Pt> = groups.values().cloned().collect();
+                if pts.len() < 2 || proof.len() < 2 {
+                    return false;
+                }
+                let (z1, z2) = match (A::point_coord0(pts[0]), A::point_coord0(pts[1])) {
+                    (Some(a), Some(b)) if a != b => (a, b),
+                    _ => return false,
+                };
+                let mut sp = sp_v.fork_log();
+                let n = adv.k.max(adv.d).max(1) as usize;
+                let ch: Vec<A::F> = (0..n)
+                    .map(|_| sp.squeeze_field_elements_with_sizes::<A::F>(&[ark_poly_commit::CHALLENGE_SIZE])[0])
+                    .collect();
+                let (xi, r2) = (ch[adv.k as usize - 1], ch[adv.d as usize - 1]);
+                let d: A::F = delta(beh, "plus");
+                let key = (plabel(adv.l), A::make_point(adv.pt, beh));
+                if r2.is_zero() || !evals.contains_key(&key) {
+                    return false;
+                }
+                *evals.get_mut(&key).unwrap() += d;
+                let e1 = xi * d * (z1 - z2).inverse().unwrap();
+                let e2 = -e1 * r2.inverse().unwrap();
+                let (a, b) = proof.split_at_mut(1);
+                A::shift_witness(&s.vk, &mut a[0], e1) && A::shift_witness(&s.vk, &mut b[0], e2)
+            }
+            _ => false,
+        },
         // ---- two errors weighted with the opening challenges of their positions (squeeze indices k, d) ----
         "value_weighted" => match st {
             Stmt::Batch { evals, .. } => {
@@ -933,6 +972,66 @@ pub fn apply_adv<A: Adapter>(
                     match evals.get_mut(&key) {
                         Some(v) => {
                             *v = newv;
+                            true
+                        }
+                        None => false,
+                    }
+                }
+                _ => false,
+            }
+        }
+        // ---- crafted proof for one group of the statement AS SHOWN (IPA: final key solved for the succinct check) ----
+        "proof_mut" if adv.comp == "forge_ipa_key" => {
+            let g = adv.l as usize;
+            match st {
+                Stmt::Open { comms, point, values, proof, .. } => {
+                    let cs: Vec<&LabeledCommitment<Comm<A>>> = comms.iter().collect();
+                    let mut sp = sp_v.fork_log();
+                    match guarded_plain(|| A::forge_group(&adv.comp, &s.vk, &cs, point, values, proof, &mut sp)) {
+                        Out::Ok(Some(p)) => {
+                            *proof = p;
+                            true
+                        }
+                        _ => false,
+                    }
+                }
+                Stmt::Batch { comms, qs, evals, proof } => {
+                    let cmap: BTreeMap<&String, &LabeledCommitment<Comm<A>>> = comms.iter().map(|c| (c.label(), c)).collect();
+                    let mut groups: BTreeMap<&String, (&A::Pt, BTreeSet<&String>)> = BTreeMap::new();
+                    for (l, (pl, pt)) in qs.iter() {
+                        groups.entry(pl).or_insert((pt, BTreeSet::new())).1.insert(l);
+                    }
+                    if groups.len() != proof.len() || g >= proof.len() {
+                        return false;
+                    }
+                    let mut sp = sp_v.fork_log();
+                    let mut forged = None;
+                    for (gi, (_pl, (pt, labels))) in groups.into_iter().enumerate() {
+                        let mut cs = vec![];
+                        let mut vs = vec![];
+                        for l in labels {
+                            match (cmap.get(l), evals.get(&(l.clone(), pt.clone()))) {
+                                (Some(c), Some(v)) => {
+                                    cs.push(*c);
+                                    vs.push(*v);
+                                }
+                                _ => return false,
+                            }
+                        }
+                        if gi < g {
+                            // advance the sponge over the earlier groups exactly as the verifier does
+                            let _ = guarded_plain(|| A::reference_check(&s.vk, &cs, pt, &vs, &proof[gi], &mut sp));
+                        } else if gi == g {
+                            forged = match guarded_plain(|| A::forge_group(&adv.comp, &s.vk, &cs, pt, &vs, &proof[gi], &mut sp)) {
+                                Out::Ok(p) => p,
+                                _ => None,
+                            };
+                            break;
+                        }
+                    }
+                    match forged {
+                        Some(p) => {
+                            proof[g] = p;
                             true
                         }
                         None => false,
